@@ -16,6 +16,7 @@ probe connections is within 1 + 17 + 9 per group-exchange algorithm; everything 
 connections receive nothing, are <= 38 with <= 3 open at once, absent with --skip-rate-test or without DH;
 DHEat.run / the interactive rate test are never entered by a standard or policy audit.
 """
+import gc
 import io
 import re
 import socket as real_socket
@@ -29,7 +30,7 @@ from props.C12 import STYLES, UNIVERSE, SHA1, SHA256
 ID = 'C19'
 MODULE = 'SshAudit.Props.C19'
 NAMESPACE = 'SshAudit.C19'
-THEOREMS = ['probeConn_facts', 'probeConn_wf', 'hkStep_inv', 'hk_fold', 'hostkey_connections_bounded', 'hostkey_conns_wf', 'hostkey_table_size', 'no_startable_kex_no_probe',
+THEOREMS = ['audit_footprintH_bounded', 'audit_footprint_total', 'probeConn_facts', 'probeConn_wf', 'hkStep_inv', 'hk_fold', 'hostkey_connections_bounded', 'hostkey_conns_wf', 'hostkey_table_size', 'no_startable_kex_no_probe',
             'loop_conns', 'gex_connections_bounded', 'gex_conns_wf', 'gex_algs_size', 'gexAll_bounded', 'audit_footprint_bounded', 'audit_footprint_36',
             'rateOpen_inv', 'rate_bounded', 'rate_from_start', 'rate_not_run', 'dos_only_on_request']
 TECHNIQUE = 'Lean 4 theorems (induction over probe lists / rate-loop iterations for arbitrary server state machines: connection-count, message-shape, closure and concurrency bounds; dispatch of intrusive features) + per-connection log correspondence with main() and _dh_rate_test over scripted targets'
@@ -298,6 +299,37 @@ def run_rate(iters, max_conn, conc):
     return {'attempted': env.attempted, 'opened': int(m.group(1)) if m else None, 'max_concurrent': env.max, 'closed': env.closed}, env
 
 
+def run_versions_differ(extra, second):
+    """the first connection answers "Protocol major versions differ." and closes; `second` says what a second connection would meet"""
+    differ = b'Protocol major versions differ.\n'
+    first = fn.Server(banner=b'SSH-1.99-OpenSSH_3.9p1', raw_after_banner=differ, close_after_send=True)
+    later = {'same': fn.Server(banner=b'SSH-1.99-OpenSSH_3.9p1', raw_after_banner=differ, close_after_send=True),
+             'pkm': fn.Server(banner=b'SSH-1.5-OpenSSH_3.9p1', raw_after_banner=b'\x00\x00\x00\x05\x00\x00\x00\x02\x00' * 3),
+             'silent': fn.Server(silent=True), 'refuse': fn.Server(refuse=True)}[second]
+    srv = fn.StagedServer([first] + [later] * 40)
+    if second == 'refuse':
+        class RNet(fn.FakeNet):
+            def route(self, addr):
+                return srv if len(self.connects) <= 1 else None
+        net = RNet({})
+    else:
+        net = fn.FakeNet({'10.19.0.3': srv})
+    net.cap = 60
+
+    class Cap(Exception):
+        pass
+    orig_route = net.route
+
+    def route(addr):
+        if len(net.connects) > net.cap:
+            raise RecursionError('harness: more than %d connections' % net.cap)
+        return orig_route(addr)
+    net.route = route
+    code, out = fn.run_main(['-n', '--skip-rate-test'] + list(extra) + ['10.19.0.3'], net)
+    gc.collect()        # a scan that ends through sys.exit() drops its sockets when the exception's frames are released (what process exit does)
+    return code, out, conn_log(net)
+
+
 def gen_iters(r, conc):
     n = r.choice([0, 1, 3, 8, 20, 60])
     its = []
@@ -359,6 +391,31 @@ def run(ctx):
         if mm != log:
             mismatches.append({'stream': 'footprint.audit', 'op': line, 'model': str(got)[:400], 'impl': str(log)[:400], 'case': sc})
     corr = len(model)
+
+    # ---- the first connection answers "Protocol major versions differ.": one retry as SSH-1 (none with -2), no probes, everything closed
+    hlines, hexp = [], []
+    for extra, tok in (([], 'd1'), (['-2'], 'd0'), (['-1'], 'e'), (['-j'], 'd1'), (['-b', '-v'], 'd1')):
+        for second in ('same', 'pkm', 'silent', 'refuse'):
+            code, out, log = run_versions_differ(extra, second)
+            inp = {'handshake': 'versions-differ', 'second_connection': second, 'args': extra}
+            cov.add(('hs', tuple(extra), second), True, tags=['handshake-retry', 'conns-%02d' % min(len(log), 30)])
+            if len(log) > 2:
+                fail('too_many_connections', inp, {'connections': len(log)}, 'the handshake is retried as SSH-1 at most once: <= 2 connections')
+            for kind, obs in shape_problems(log, 0, 0):
+                if kind != 'too_many_connections':
+                    fail(kind, inp, obs, 'allowed shapes, all closed')
+            if 'Traceback' in out or code not in (0, 1, 2, 3):
+                fail('audit_crashed', inp, out[-300:], 'a documented status')
+            if second != 'refuse':
+                hlines.append('footprint.hs ' + (tok + 'n' if tok == 'd1' and second == 'silent' else tok))
+                hexp.append((log, inp))
+    hmodel = ctx.driver(hlines) if ctx.driver_ok else []
+    for line, m, (log, inp) in zip(hlines, hmodel, hexp):
+        got = m.get('ok')
+        mm = [[c[1], c[2], c[3]] for c in got] if isinstance(got, list) else got
+        if mm != log:
+            mismatches.append({'stream': 'footprint.hs', 'op': line, 'model': str(got)[:300], 'impl': str(log)[:300], 'case': inp})
+    corr += len(hmodel)
 
     # ---- full audits with the rate check on -------------------------------------------------------------------------
     rr_lines, rr_expect = [], []
@@ -486,6 +543,13 @@ def replay(obj):
         print(got, 'still open:', env.cur)
         bad = got['attempted'] > inp['max'] or got['max_concurrent'] > inp['concurrent'] or env.cur != 0 or env.sent_any
         return 1 if bad else 0
+    if 'handshake' in inp:
+        code, out, log = run_versions_differ(inp['args'], inp['second_connection'])
+        for i, c in enumerate(log[:12]):
+            print(i, c)
+        probs = [p for p in shape_problems(log, 0, 0) if p[0] != 'too_many_connections']
+        print('exit', code, 'connections', len(log), probs[:3])
+        return 1 if (len(log) > 2 or probs or 'Traceback' in out or code not in (0, 1, 2, 3)) else 0
     if 'scenario' not in inp:
         print('dispatch case: run harness/check.py C19')
         return 1
